@@ -70,6 +70,7 @@ class Opts:
         self.min_modules = 1
         self.adversarial_leaf_names = False
         self.pair_pct = 12
+        self.bundle_port_pct = 50
         self.array_pct = 22
         self.history = False  # C04: an interleaved history of connect / replace / disconnect operations per module
         self.avoid_known = True  # do not construct the triggers of open known findings (counted as redirects)
@@ -297,7 +298,7 @@ class ModGen:
             nb = [b for b in range(len(spec["bundles"])) if not spec["bundles"][b].get("builtin")]
             # (with adversarial leaf names the top module gets no bundle ports: its flattened port names would be the
             #  elaborator's to choose, and the comparison keys top-level ports by name)
-            if nb and o.bundle_ports and d.bool(50) and not (is_top and o.adversarial_leaf_names):
+            if nb and o.bundle_ports and d.bool(o.bundle_port_pct) and not (is_top and o.adversarial_leaf_names):
                 bi = d.choice(nb)
                 for k in range(d.weighted([(1, 70), (2, 25), (3, 5)])):
                     if k and d.bool(40):
@@ -551,7 +552,7 @@ def gen_bundles(d, o):
     if not o.bundles:
         return []
     out = []
-    for k in range(d.int(0, 3)):
+    for k in range(d.int(1 if o.bundle_port_pct > 50 else 0, 3)):
         roles = d.bool(30)
         kinds = SIG_KINDS + (["role_ab", "role_ba"] if roles else [])
         sigs = [[LEAF_NAMES[i], d.width(False), d.choice(kinds)] for i in range(d.int(1, 3))]
